@@ -162,7 +162,9 @@ def parent_search(ctx):
             ns += 1
             pay = strip_casts(dict(t[3])['0'])
             found = pay[0] == 'call' and pay[1] == 'std::iter::Iterator::rposition'
-            tried = any(c[0] == 'discr' and c[1][0] == 'try' and v == [0] for c, v, tr in gs)
+            # reached only after "no candidate -> Err" has been passed: `.ok_or_else(..)?`, or `match search { None => return Err(..), .. }`
+            reqs = T.option_required(b, lambda a0: any(y[0] == 'call' and y[1] == 'std::iter::Iterator::rposition' for y in walk(a0)))
+            tried = any(c[0] == 'discr' and c[1][0] == 'try' and v == [0] for c, v, tr in gs) or any(b.cfg.dominates(r_, bb) for r_ in reqs)
             if not found and item is not None:
                 # accepted shortcut: the layer directly before this one, taken only when its level is lower (then it *is* the nearest one)
                 import poly as P
@@ -186,12 +188,9 @@ def parent_search(ctx):
     for c in rps:
         fates = q.result_fates(b, c.dest['l'])
         ok = bool(fates) and all(f[0] in ('try', 'call') for f in fates)
-        oe = [x for x in q.calls(b, 'std::option::Option::ok_or_else') if any(y[0] == 'call' and y[3] == (b.name, c.bb) for y in walk(q.arg_terms(x)[0]))]
-        okq = False
-        for x in oe:
-            f2 = q.result_fates(b, x.dest['l'])
-            okq = bool(f2) and all(f[0] == 'try' for f in f2)
-        ctx.inst('V5', 'no candidate', okq, 'a level > 0 with no earlier lower-level layer: rposition(..).ok_or_else(..)? -> Err (%s)' % ('propagated' if okq else 'NOT propagated'),
+        reqs = T.option_required(b, lambda a0, c=c: any(y[0] == 'call' and y[3] == (b.name, c.bb) for y in walk(a0)))
+        okq = bool(reqs)
+        ctx.inst('V5', 'no candidate', okq, 'a level > 0 with no earlier lower-level layer: the search result is required to be Some, None -> Err (%s)' % ('propagated' if okq else 'NOT propagated'),
                  c.span, key=b.name + '|V5|nocandidate')
 
 
